@@ -47,6 +47,8 @@ type RuntimeOpts struct {
 	// the order in which the path names them (`message R { string post_id = 1; string user_id = 2; }` for
 	// `/users/{user_id}/posts/{post_id}`).
 	ReorderPathFields bool
+	// BareMethod: one more RPC that carries no (sebuf.http.config) at all and whose request has query-annotated fields.
+	BareMethod bool
 	// SharedRequest (GenMultiServiceFile): one more service whose routes take the SAME request message with DIFFERENT
 	// sets of path variables (the variable missing from a path travels in the body): whatever is derived per route
 	// must not be remembered per message.
@@ -271,6 +273,20 @@ func GenRuntimeFile(r *R, idx int, o RuntimeOpts) *ir.Request {
 		f.Messages = append(f.Messages, in)
 		m := &ir.Method{Name: fmt.Sprintf("Op%d", i), Input: P + in.Name, Output: P + "Reply", Config: &ir.HTTPConfig{Path: path, Method: verb}}
 		svc.Methods = append(svc.Methods, m)
+	}
+	if o.BareMethod {
+		// an RPC WITHOUT (sebuf.http.config): served as POST on the default path, and its query-annotated fields are
+		// bound from the URL like those of any other RPC
+		in := &ir.Message{Name: "BareReq", Fields: []*ir.Field{
+			{Name: "q", Number: 1, Kind: "string", Ann: ir.Ann{Query: &ir.Query{Name: "q"}}},
+			{Name: "limit", Number: 2, Kind: "int32", Ann: ir.Ann{Query: &ir.Query{Name: "limit", Required: true}}},
+			{Name: "tag", Number: 3, Kind: "string", Card: "repeated", Ann: ir.Ann{Query: &ir.Query{Name: "tag"}}},
+			{Name: "note", Number: 4, Kind: "string"}}}
+		if !o.RepeatedQuery {
+			in.Fields[2].Card = ""
+		}
+		f.Messages = append(f.Messages, in)
+		svc.Methods = append(svc.Methods, &ir.Method{Name: "BareFind", Input: P + "BareReq", Output: P + "Reply"})
 	}
 	if o.ErrorTypes {
 		f.Messages = append(f.Messages, &ir.Message{Name: "NotFoundError", Fields: []*ir.Field{
